@@ -146,6 +146,12 @@ pub fn alphabet(root_uid: bool) -> Vec<Op> {
             ops.push(Op::ChownB(s(p), None, Some(8), true, true));
         }
     }
+    // several missing levels at once with a mode that lacks owner write / search: every created level carries
+    // the requested mode on both backends
+    for p in ["/zz/q", "/b/zz/q/r"] {
+        ops.push(Op::MkdirM(s(p), 0o555));
+        ops.push(Op::MkdirM(s(p), 0o644));
+    }
     // data shapes: both backends must store and split the same bytes (empty data over existing content,
     // bare and doubled carriage returns, missing final newline, empty lines and embedded terminators in line lists)
     for p in ["/a", "/a/ab"] {
